@@ -1,6 +1,7 @@
 package minijson
 
 import (
+	"fmt"
 	"strconv"
 	"strings"
 )
@@ -78,6 +79,16 @@ func (s *JsonObjectBuilder) writeKey(key string) {
 }
 
 var escapeLookup = [93]string{'\b': "\\b", '\f': "\\f", '\n': "\\n", '\r': "\\r", '\t': "\\t", '"': `\"`, '\\': `\\`}
+
+func init() {
+	// JSON strings may not contain raw control characters: the ones without
+	// a short escape are written as \u00XX
+	for c := 0; c < 0x20; c++ {
+		if escapeLookup[c] == "" {
+			escapeLookup[c] = fmt.Sprintf("\\u%04x", c)
+		}
+	}
+}
 
 func escape(s string) string {
 	var sb strings.Builder
